@@ -2,7 +2,7 @@
     Cli.v ([run_log], [run_db_log]) on a readable log and a standard output that
     never fails, and the reporter choices of [reg] and [balance]. *)
 From HP Require Import Base.Bytes Base.Utf8 Base.Num Model.Scanner Model.Parser Model.Elements Model.Resolver
-  Model.Dates Model.Tree Model.Writer Model.Reporters Model.Cli Spec.ComposeSpec
+  Model.Dates Model.Tree Model.Writer Model.Regex Model.Reporters Model.Cli Spec.ComposeSpec
   Proofs.ComposeWriter Proofs.ComposeWalk.
 
 Section Run.
@@ -58,7 +58,7 @@ Section Run.
 
   (** the reporter [reg] chooses is one of the two kinds (pattern inside the model) *)
   Theorem reg_reporter_kind : forall c d,
-    (rc_single_food c = [] \/ plain_pattern (rc_single_food c) = true) ->
+    (rc_single_food c = [] \/ parse_regex (rc_single_food c) <> ReUnmodelled) ->
     perday_reporter NM (reg_reporter NM c d) \/ period_reporter NM (reg_reporter NM c d).
   Proof.
     intros c d Hpat. unfold reg_reporter.
